@@ -81,7 +81,7 @@ def fmt_injected(v):
     return ",".join("%s=%s" % (f, getattr(v, f)) for f in v._fields)
 
 
-def comp_data(name, kwargs, inject_fn, injects, echo_id, comp_id, label=None):
+def comp_data(name, kwargs, inject_fn, injects, echo_id, comp_id, label=None, extra=None):
     """The get_context_data of every generated component (shared by the real class and the model)."""
     d = {
         name + "_s": kwargs.get("s", "dflt" + (label or name)),
@@ -94,6 +94,8 @@ def comp_data(name, kwargs, inject_fn, injects, echo_id, comp_id, label=None):
         d["%s_inj_%s" % (name, key)] = inject_fn(key, has_default)
     if echo_id:
         d[name + "_id"] = comp_id
+    if extra:
+        d.update(extra)
     return d
 
 
@@ -118,7 +120,7 @@ def build_classes(prog, registry=None, module="sim.generated"):
                     return fmt_injected(v)
 
                 return comp_data(name, kwargs, inj, cd["injects"], cd.get("echo_id"), self.id if cd.get("echo_id") else None,
-                                 cd.get("label"))
+                                 cd.get("label"), cd.get("extra_data"))
 
             return get_context_data
 
